@@ -5,29 +5,70 @@ from .runner import Spec
 DAY = 24 * 3600 * 10**9
 
 
+def fold_task_opts(opts):
+    """createTaskOptions as documented: options applied left to right; WithTimeout/WithRetry ignore values <= 0"""
+    T, R, discard, cb = 365 * DAY, 1, True, False
+    for kind, val in opts:
+        if kind == "t":
+            if val > 0:
+                T = val
+        elif kind == "r":
+            if val > 0:
+                R = val
+        elif kind == "d":
+            discard = val != 0
+        elif kind == "e":
+            cb = val != 0
+    return T, R, discard, cb
+
+
 def parse_script(script):
     head, _, body = script.partition(" | ")
     hw = head.split()
-    sc = {"n": int(hw[1]), "parks": [], "tasks": [], "old": "old" in hw}
-    i = 2
+    sc = {"n": 1, "parks": [], "tasks": [], "old": "old" in hw, "basecancel": None, "customctx": False}
+    popts = []
+    i = 0
     while i < len(hw):
-        if hw[i] == "park":
+        w = hw[i]
+        if w == "park":
             s, o, u = hw[i + 1].split(":")
             sc["parks"].append((int(s), int(o), int(u)))
             i += 2
+        elif w == "n":
+            popts.append(("s", int(hw[i + 1])))
+            i += 2
+        elif w == "popts":
+            popts += [(f[0], int(f[1:])) for f in hw[i + 1].split(",")]
+            i += 2
+        elif w == "basecancel":
+            sc["basecancel"] = int(hw[i + 1])
+            i += 2
         else:
             i += 1
+    for kind, val in popts:       # createPoolOptions: WithSize ignores <= 0, WithContextBuilder ignores nil
+        if kind == "s" and val > 0:
+            sc["n"] = val
+        if kind == "c" and val != 0:
+            sc["customctx"] = True
+    if not sc["customctx"]:
+        sc["basecancel"] = None
     for ts in body.split(" ; "):
         w = ts.split()
         if not w:
             continue
-        T, R = int(w[2]), int(w[3])
+        if len(w) == 4:
+            opts = [] if w[2] == "-" else [(f[0], int(f[1:])) for f in w[2].split(",")]
+            behtok = w[3]
+        else:
+            opts = [("t", int(w[2])), ("r", int(w[3])), ("d", int(w[4] != "0"))] + ([("e", 1)] if w[5] != "0" else [])
+            behtok = w[6]
         behs = []
-        for b in w[6].split(","):
+        for b in behtok.split(","):
             d, h, v, e = b.split(":")
             behs.append({"dur": int(d), "hon": h != "0", "v": int(v), "e": int(e)})
-        sc["tasks"].append({"g": int(w[0]), "time": int(w[1]), "T": T, "R": R, "discard": w[4] != "0", "cb": w[5] != "0",
-                            "behs": behs, "teff": T if T > 0 else 365 * DAY, "reff": R if R > 0 else 1})
+        T, R, discard, cb = fold_task_opts(opts)
+        sc["tasks"].append({"g": int(w[0]), "time": int(w[1]), "opts": opts, "discard": discard, "cb": cb,
+                            "behs": behs, "teff": T, "reff": R})
     return sc
 
 
@@ -164,12 +205,12 @@ class C07(AntsSpec):
             return ("malformed", "task count differs")
         park1 = any(p[0] == 1 for p in sc["parks"])
         for k, (t, o) in enumerate(zip(sc["tasks"], obs)):
-            r = self.judge(k, t, o, park1)
+            r = self.judge(k, t, o, park1, sc["basecancel"])
             if r:
                 return r
         return None
 
-    def judge(self, k, t, o, park1):
+    def judge(self, k, t, o, park1, basecancel=None):
         tag = "task %d: " % k
         if o["kind"] in ("unsent", "blocked"):
             return ("send-never-returned", tag + "Send did not return within the scenario horizon")
@@ -200,6 +241,11 @@ class C07(AntsSpec):
         for pos, i in enumerate(atts):
             iv = o["invs"][i]
             dl = iv["begin"] + t["teff"]
+            if iv["begin"] > iv["start"]:
+                return ("timeout-not-in-effect", tag + "the handler's ctx deadline %d is later than its start %d + the timeout in effect %d" % (
+                    dl, iv["start"], t["teff"]))
+            if basecancel is not None:   # the attempt's ctx is done when the dispatcher's own ctx is cancelled
+                dl = min(dl, max(basecancel, iv["begin"]))
             allowed = []
             if iv["end"] < dl:
                 allowed = [iv["pair"]] + ([("0", "DE")] if park1 else [])
